@@ -353,7 +353,17 @@ fn sigmf_leg(src: &mut Src, ctx: &mut RunCtx, solo: &Arc<Solo>) -> RunResult {
         let t = sigmf_archive(src, &sigmf_meta("cf32_le"), &raw);
         std::fs::write(&path, t).map_err(|e| Violation::new("HARNESS-PANIC write", e.to_string()))?;
     } else {
-        std::fs::write(dir.path().join("capture.sigmf-meta"), sigmf_meta("cf32_le")).map_err(|e| Violation::new("HARNESS-PANIC write", e.to_string()))?;
+        // Half the recordings get their metadata from the crate's own writer.
+        if src.coin() {
+            ctx.count("sigmf_meta_by_own_writer");
+            match catch(|| rustradio::sigmf::write(dir.path().join("capture.sigmf-meta"), 48000.0, 144_800_000.0)) {
+                Ok(Ok(())) => {}
+                Ok(Err(e)) => return Err(Violation::new("C14:sigmf-write-failed", format!("sigmf::write failed: {e}"))),
+                Err(p) => return Err(Violation::new("C14:sigmf-write-panicked", format!("sigmf::write panicked: {} at {}", p.msg, p.loc))),
+            }
+        } else {
+            std::fs::write(dir.path().join("capture.sigmf-meta"), sigmf_meta("cf32_le")).map_err(|e| Violation::new("HARNESS-PANIC write", e.to_string()))?;
+        }
         std::fs::write(dir.path().join("capture.sigmf-data"), &raw).map_err(|e| Violation::new("HARNESS-PANIC write", e.to_string()))?;
     }
     ctx.ev(|| format!("C14 sigmf leg archive {archive} n {n} read_chunks {rchunks:?}"));
